@@ -100,10 +100,6 @@ def gen_tx(ctx, reserved):
         n = rng.randrange(1, 300)
         m = bytes(rng.randrange(256) if rng.random() < 0.3 else rng.choice(ALPHA) for _ in range(n))
         add(tx_case(rng.choice([mincs, mincs + 1, mincs + 2, 20, 25, 40, 64, 100, 128]), m), 'random')
-    # (d) the excluded range, under the harness' bound on the number of chunks
-    for cs in range(0, mincs):
-        for m in [b'a', b'\n', b'\r', b'ab\r\nc', b'\n\n', b'a\r']:
-            add(tx_case(cs, m), 'below-minimum')
     for cs in range(100, 100 + 2):   # three digit sizes are all above their minimum (17)
         add(tx_case(cs, b'abc\n'), 'structured')
     # (e) a refusing server
@@ -121,6 +117,18 @@ def gen_tx(ctx, reserved):
         for i, c in enumerate(big):
             small.insert(min(len(small), i * step + i), c)
     return small
+
+
+def gen_tx_below_minimum(ctx, reserved):
+    """(d) the excluded range of chunk sizes, under the harness' bound on the number of chunks. Most of
+    these abort the harness (heap overflow): they run as jobs of their own, a few at a time."""
+    mincs = 2 + lenlen(10, reserved)
+    cases = []
+    for cs in range(0, mincs):
+        for m in [b'a', b'\n', b'\r', b'ab\r\nc', b'\n\n', b'a\r']:
+            cases.append(tx_case(cs, m))
+            ctx.count('tx:below-minimum')
+    return cases
 
 
 def canon_tx(case, out):
@@ -414,6 +422,11 @@ def run(ctx):
         vlib.differential(ctx, 'send_bdat', htx, cases, canon_h=canon_tx, canon_m=canon_tx, pred=pred_tx,
                           nontrivial=lambda c, o: o.startswith(('done', 'shutdown')),
                           corr_name='model QsmtpModel.Bdat.sendBdat vs qremote/qrbdat.c:send_bdat')
+        low = gen_tx_below_minimum(ctx, reserved)
+        for k in range(0, len(low), 18):
+            vlib.differential(ctx, 'send_bdat[chunksize<16]', htx, low[k:k + 18], canon_h=canon_tx, canon_m=canon_tx, pred=pred_tx,
+                              nontrivial=lambda c, o: True,
+                              corr_name='model QsmtpModel.Bdat.sendBdat vs qremote/qrbdat.c:send_bdat, chunk sizes below the minimum')
     by = gen_rx(ctx, tiny, normal)
     for c in corpus:
         if c.startswith('rx '):
